@@ -21,7 +21,7 @@ Adv == l' = l + 1 /\ TLCSet(1, l)
 
 ContentOK(st, ev) == ev.any \/ st.start \in Rng(ev.cand)
 
-Comp(st) == st.rd = "open" /\ fr[st.start].comp
+Comp(st) == Lazy(st)
 
 TReset ==
   /\ Is("Reset")
@@ -91,6 +91,27 @@ TJA ==
           /\ s' = IF j.w.res = "wild" THEN [j.s EXCEPT !.wild = TRUE, !.failed = TRUE, !.nerr = 1] ELSE JANext(j, Ev.err)
   /\ UNCHANGED << cfg, fr >> /\ Adv
 
+(* ReadJSON: NextReader, then an opaque decoder (see the RJ operators of WSReader). *)
+TRJ ==
+  /\ Is("RJ")
+  /\ \E len \in BOOLEAN :
+     LET w0 == NRWalk(s, len)
+         w1 == IF ~s.wild /\ Comp(s) THEN DropObs(w0, s.zobs) ELSE w0 IN
+     IF s.wild THEN s' = s
+     ELSE IF ~s.failed /\ w1.res = "wild" THEN s' = (IF Ev.ok THEN w1.s ELSE [w1.s EXCEPT !.failed = TRUE, !.nerr = 1])
+     ELSE IF s.failed \/ w1.res # "data" THEN
+          /\ NRAllowed(s, w1, Ev.ok, 0, Ev.err, Ev.obs)
+          /\ s' = NRNext(s, w1, Ev.err)
+     ELSE LET w2 == RALoop(w1.s, << >>) IN
+          IF w2.res = "wild" THEN s' = w2.s
+          ELSE \/ /\ RJValueAllowed(w1, w2, Ev.ok, Ev.err, Ev.obs, Ev.cand)
+                  /\ s' = RJLazyNext(w1, Ev.obs)
+               \/ /\ RJSyntaxAllowed(w1, w2, Ev.ok, Ev.err, Ev.obs)
+                  /\ s' = RJLazyNext(w1, Ev.obs)
+               \/ /\ RJFaultAllowed(w1, w2, Ev.ok, Ev.err, Ev.obs)
+                  /\ s' = RJFaultNext(w2)
+  /\ UNCHANGED << cfg, fr >> /\ Adv
+
 TSRD == /\ Is("SRD") /\ Ev.err.cls = "nil" /\ UNCHANGED << cfg, fr, s >> /\ Adv
 
 TPanic == /\ Is("PANIC") /\ PanicAllowed(s)
@@ -98,7 +119,7 @@ TPanic == /\ Is("PANIC") /\ PanicAllowed(s)
 
 TInit == l = 1 /\ cfg = [role |-> "server"] /\ fr = << >> /\ s = S0
 
-TNext == TReset \/ TJA \/ TSRD \/ TPanic \/ TNR \/ TRD \/ TRA \/ TRM
+TNext == TReset \/ TJA \/ TRJ \/ TSRD \/ TPanic \/ TNR \/ TRD \/ TRA \/ TRM
 
 TSpec == TInit /\ [][TNext]_tvars
 
